@@ -4,6 +4,7 @@
 #include "ops_int.hpp"
 #include "ops_fp.hpp"
 #include "ops_logic.hpp"
+#include "ops_scalar.hpp"
 #include "known.hpp"
 
 using namespace xsv;
@@ -72,6 +73,140 @@ static int nvals(const OpDef& d)
         if (d.kind[i] == K_VAL)
             ++n;
     return n;
+}
+
+// C13 (exact operations): f(x)[k] must be bit-identical to f(broadcast(x[k]))[j] for every lane k and every j.
+// No reference model is involved.  Returns true when a violation was recorded.
+static bool run_case_c13(Context& cx, const ElemCase& c, const Resolved& r)
+{
+    const OpDef& d = *c.op;
+    cx.st.evaluations++;
+    bool failed = false;
+    bool distinct_lanes = false;
+    for (size_t k = 0; k < r.tg.size(); ++k)
+    {
+        const Target& tg = *r.tg[k];
+        const xsv_entry* e = r.e[k];
+        const int n = e->lanes;
+        const int ob = d.out == O_BOOL ? 1 : kTypeBytes[d.out_type[c.type]];
+        unsigned char full[128], bc[128];
+        exec_raw(cx, c, tg, e, full);
+        for (int l = 0; l < n; ++l)
+        {
+            if (l > 0)
+                for (int i = 0; i < d.arity; ++i)
+                    if (memcmp(c.in[i], c.in[i] + (size_t)l * in_stride(d, i, c.type), in_stride(d, i, c.type)))
+                        distinct_lanes = true;
+            ElemCase b = broadcast_lane(c, l);
+            exec_raw(cx, b, tg, e, bc);
+            cx.st.lane_checks++;
+            int bad = -1;
+            const TypeId otype = d.out == O_BOOL ? U8 : d.out_type[c.type];
+            for (int j = 0; j < n && bad < 0; ++j)
+                if (memcmp(bc + (size_t)j * ob, full + (size_t)l * ob, ob) != 0)
+                {
+                    // two NaN results are the same result: which operand's payload survives when both operands are NaN is
+                    // not fixed by IEEE-754 and C02 compares NaN results as "is NaN" (DESIGN 6.3)
+                    bool bothnan = false;
+                    if (otype == F32)
+                    {
+                        float x, y;
+                        memcpy(&x, bc + (size_t)j * ob, 4);
+                        memcpy(&y, full + (size_t)l * ob, 4);
+                        bothnan = x != x && y != y;
+                    }
+                    else if (otype == F64)
+                    {
+                        double x, y;
+                        memcpy(&x, bc + (size_t)j * ob, 8);
+                        memcpy(&y, full + (size_t)l * ob, 8);
+                        bothnan = x != x && y != y;
+                    }
+                    if (!bothnan)
+                        bad = j;
+                }
+            if (bad >= 0)
+            {
+                TypeId ot = d.out == O_BOOL ? U8 : d.out_type[c.type];
+                Violation v = make_violation(cx, c, tg, e, l, bc + (size_t)bad * ob, full + (size_t)l * ob,
+                                             "lane " + std::to_string(l) + " of f(x) differs from lane " + std::to_string(bad) + " of f(broadcast(x[" + std::to_string(l) + "])): the result depends on the neighbours or on the lane position");
+                (void)ot;
+                v.kind = "elem_c13";
+                cx.add_violation(v, true);
+                failed = true;
+                break;
+            }
+        }
+    }
+    if (distinct_lanes)
+    {
+        uint64_t h = hash_str(d.name, c.type * 1315423911u + (uint64_t)c.imm);
+        for (int i = 0; i < d.arity; ++i)
+            h = hash_bytes(c.in[i], 64, h);
+        cx.st.note_distinct(h);
+        record_sample(cx, c, 4, 0);
+        cx.st.classes["lanes_distinct"]++;
+    }
+    else
+        cx.st.classes["trivial"]++;
+    return failed;
+}
+static void run_group_c13(Context& cx, const Group& g, const Resolved& r)
+{
+    const OpDef& d = *g.d;
+    const TypeId t = g.t;
+    // rapidcheck cases (independent random lanes from the type's value mixture) ...
+    rc::detail::TestParams params = rc::detail::configuration().testParams;
+    params.seed = mix64(params.seed ^ hash_str(d.name, t) ^ 0xC13);
+    params.maxSuccess = (int)std::max<long>(1, cx.opt.budget);
+    rc::detail::TestMetadata md;
+    md.id = d.name + ":" + kTypeNames[t];
+    md.description = md.id;
+    auto res = rc::detail::checkTestable(
+        [&]() {
+            ElemCase c = gen_case(d, t);
+            if (g_case_filter)
+                g_case_filter(c);
+            cx.st.per_group[md.id]++;
+            RC_ASSERT(!run_case_c13(cx, c, r));
+        },
+        md, params);
+    (void)res;
+    // ... and lattice tuples packed into consecutive lanes (first rotation only)
+    auto L = value_lists(d, t, false);
+    uint64_t total = 1;
+    for (auto& l : L)
+        total *= l.size();
+    const uint64_t cap = cx.opt.thorough() ? 20000 : 1500;
+    const uint64_t stride = total > cap ? (total / cap) | 1 : 1;
+    auto imms = imm_values(d, t);
+    if (imms.size() > 4)
+        imms = { imms.front(), imms[1], imms[imms.size() / 2], imms.back() };
+    auto groups = by_lanes(r);
+    for (auto& gr : groups)
+        for (int64_t imm : imms)
+        {
+            const int n = gr.first;
+            for (uint64_t base = mix64(cx.opt.seed) % stride; base < total; base += stride * n)
+            {
+                ElemCase c;
+                c.op = &d;
+                c.type = t;
+                c.imm = imm;
+                for (int l = 0; l < n; ++l)
+                {
+                    uint64_t ti = (base + (uint64_t)l * stride) % total;
+                    for (int i = d.arity - 1; i >= 0; --i)
+                    {
+                        put_lane(c.in[i], in_stride(d, i, t), l, L[i][ti % L[i].size()]);
+                        ti /= L[i].size();
+                    }
+                }
+                if (g_case_filter)
+                    g_case_filter(c);
+                run_case_c13(cx, c, gr.second);
+            }
+        }
 }
 
 // `mine`: this worker owns the group's light part (lattice products, mask enumeration, rapidcheck);
@@ -174,16 +309,18 @@ int main(int argc, char** argv)
     register_int_ops();
     register_fp_ops();
     register_logic_ops();
+    register_scalar_ops();
     install_known(cx.opt);
     g_case_filter = sanitize;
 
     const std::string prop = cx.opt.prop;
     const bool scalar = prop == "C17";
+    const bool c13 = prop == "C13";
     // ops of this property
     std::vector<const OpDef*> ops;
     for (auto& d : op_registry())
     {
-        bool take = scalar ? scalar_op_claimed(d) : d.prop == prop;
+        bool take = scalar ? scalar_op_claimed(d) : (c13 ? (scalar_op_claimed(d) && d.family != "scalar") : d.prop == prop);
         if (!cx.opt.only_ops.empty())
             take = take && cx.opt.only_ops.count(d.name);
         if (take && cx.opt.replay.empty())
@@ -191,10 +328,31 @@ int main(int argc, char** argv)
     }
     std::set<std::string> fams;
     for (auto* d : ops)
-        fams.insert(scalar ? std::string("scalar") : d->family);
+    {
+        if (scalar)
+        {
+            fams.insert("scalar");
+            if (d->agree)
+                fams.insert(d->family);
+        }
+        else
+            fams.insert(d->family);
+    }
     std::map<std::string, std::vector<Target>> targets;
     for (auto& f : fams)
         targets[f] = load_targets(cx.opt, f);
+    auto resolve_for = [&](const OpDef& d, TypeId t) {
+        if (!scalar)
+            return resolve(targets[d.family], d, t);
+        Resolved r = resolve(targets["scalar"], d, t);
+        if (d.agree && !r.tg.empty() && d.family != "scalar")
+        {
+            Resolved b = resolve(targets[d.family], d, t);
+            r.tg.insert(r.tg.end(), b.tg.begin(), b.tg.end());
+            r.e.insert(r.e.end(), b.e.begin(), b.e.end());
+        }
+        return r;
+    };
 
     if (!cx.opt.replay.empty())
     {
@@ -207,7 +365,40 @@ int main(int argc, char** argv)
         const std::string fam = scalar ? "scalar" : d->family;
         if (!targets.count(fam))
             targets[fam] = load_targets(cx.opt, fam);
-        ElemCase dummy;
+        if (scalar && d->agree && d->family != "scalar")
+        {
+            // replay on the scalar targets and the batch targets together
+            std::vector<Target> all = targets[fam];
+            auto b = load_targets(cx.opt, d->family);
+            all.insert(all.end(), b.begin(), b.end());
+            return replay_case(cx, all, cx.opt.replay);
+        }
+        if (c13)
+        {
+            const auto& tok = cx.opt.replay;
+            if (tok.size() < 5)
+                return 2;
+            ElemCase c;
+            c.op = d;
+            c.type = type_from_name(tok[1]);
+            c.imm = atoll(tok[3].c_str());
+            for (size_t i = 4; i < tok.size() && i - 4 < 4; ++i)
+            {
+                auto b = unhex(tok[i]);
+                memcpy(c.in[i - 4], b.data(), std::min<size_t>(b.size(), 64));
+            }
+            Resolved r;
+            for (auto& tg : targets[fam])
+                if (tok[2] == "*" || tok[2] == tg.name)
+                    if (const xsv_entry* e = tg.find(d->name, kTypeNames[c.type]))
+                    {
+                        r.tg.push_back(&tg);
+                        r.e.push_back(e);
+                    }
+            bool failed = !r.tg.empty() && run_case_c13(cx, c, r);
+            printf(failed ? "REPLAY-FAIL %s\n" : "REPLAY-PASS%s\n", failed ? cx.violations[0].to_json().c_str() : "");
+            return failed ? 1 : 0;
+        }
         return replay_case(cx, targets[fam], cx.opt.replay);
     }
 
@@ -235,7 +426,7 @@ int main(int argc, char** argv)
     {
         const bool mine = (int)(i % cx.opt.nworkers) == cx.opt.worker;
         const Group& g = groups[i];
-        Resolved r = resolve(targets[scalar ? "scalar" : g.d->family], *g.d, g.t);
+        Resolved r = resolve_for(*g.d, g.t);
         if (r.tg.empty())
         {
             if (mine)
@@ -245,7 +436,13 @@ int main(int argc, char** argv)
         if (mine)
             for (auto* tg : r.tg)
                 cx.st.per_target[tg->name]++;
-        run_group(cx, g, r, mine);
+        if (c13)
+        {
+            if (mine)
+                run_group_c13(cx, g, r);
+        }
+        else
+            run_group(cx, g, r, mine);
         if (++done % 16 == 0)
             cx.write_out();
     }
